@@ -150,11 +150,14 @@ class Constraint(
         s_expr.Expression,
         default=None, compcoef=0.909, coerce=True)
 
+    # Part of the constraint's identity (and of its name): there is no DDL
+    # to change it, so two constraints that differ here must never be
+    # matched up as "the same constraint, altered" (same as for indexes).
     except_expr = so.SchemaField(
         s_expr.Expression,
         default=None,
         coerce=True,
-        compcoef=0.909,
+        compcoef=0.0,
         ddl_identity=True,
     )
 
